@@ -28,7 +28,8 @@ logging.getLogger('kmip').setLevel(logging.CRITICAL + 1)
 HEADER = ('From PK Require Import Codec.SchemaCases.\nFrom PKGen Require Import Schemas.\n'
           'From Coq Require Import ZArith String List.\nImport ListNotations.\nOpen Scope Z_scope.\n'
           'Notation length := List.length.\n')
-FUEL = 12
+FUEL = 14
+SKIP = object()
 
 
 def kmip():
@@ -101,8 +102,16 @@ def has_eq(obj):
 
 
 def boolean_with_odd_length(obj):
+    """header state that read() keeps and write() re-emits although it is not part of the value: a Boolean whose
+    (unchecked) length field is not 8; a Struct subclass without read/write of its own (Base.read/Base.write:
+    contents.MessageExtension) whose length field is not 0"""
     from kmip.core import primitives
-    return any(isinstance(o, primitives.Boolean) and o.length != 8 for o in graph(obj).values())
+    for o in graph(obj).values():
+        if isinstance(o, primitives.Boolean) and o.length != 8:
+            return True
+        if isinstance(o, primitives.Struct) and type(o).read is primitives.Base.read and o.length not in (0, None):
+            return True
+    return False
 
 
 def same_obj(a, b):
@@ -213,9 +222,14 @@ class Oracle:
         c.count('oracle.pattern.checked')
         back, r = impl_read(cls, w, v)
         witness = {'pattern': note, 'encoded': w.hex()}
+        # a dispatched item present although the item it is dispatched on is absent (payload without operation)
+        orphan = sorted(it['field'] for it, n in zip(items, counts)
+                        if n and it.get('by') and it['by']['ix'] < len(counts) and counts[it['by']['ix']] == 0)
+        extra = {'path': 'presence-pattern'}
+        if orphan:
+            extra['dispatched_without_key'] = ','.join(orphan)
         if back is None or r != b'':
-            return self.fail(cname, v, 'read(write(x)):rejected', w, dict(witness, exc=r if back is None else 'leftover'),
-                             {'path': 'presence-pattern'})
+            return self.fail(cname, v, 'read(write(x)):rejected', w, dict(witness, exc=r if back is None else 'leftover'), extra)
         if same_obj(x, back) is False:
             self.fail(cname, v, 'read(write(x))!=x', w, dict(witness, x=repr(x)[:300], decoded=repr(back)[:300]), {'path': 'presence-pattern'})
         if impl_write(back, v) != w:
@@ -289,7 +303,29 @@ class Oracle:
 
 
 # ------------------------------------------------------------------ K cases for the classes under T
+KEY_TABLES = {}      # class name -> [(key attribute field, set of modelled keys)]   (filled from the schema in struct_cases)
+
+
+def key_outside_table(obj):
+    """some structure in the decoded object carries a dispatch key the extracted table does not model (a custom attribute
+    name outside the sampled ones, an operation whose payload class is outside the translator, a name spelled in another
+    case - Attribute.read upper-cases the name before the lookup): the model refuses such keys by construction"""
+    for o in graph(obj).values():
+        for k in type(o).__mro__:
+            for field, keys in KEY_TABLES.get(k.__name__, ()):
+                a = getattr(o, '_' + field, None) if hasattr(o, '_' + field) else getattr(o, field, None)
+                if a is None:
+                    continue
+                val = getattr(a, 'value', a)
+                val = getattr(val, 'value', val)
+                if val not in keys:
+                    return True
+    return False
+
+
 def scase(v, tag, cname, bs, obj, rest, rew):
+    if obj is not None and key_outside_table(obj):
+        return None
     if obj is not None and boolean_with_odd_length(obj):
         return 'SRdA %d %d %s %s true %s' % (v, tag, cp.string(cname), cp.byts(bs), cp.byts(rest))
     return 'SRd %d %d %s %s %s %s %s' % (
@@ -312,10 +348,17 @@ def struct_cases(ctx, doc, oracle, only=None):
     budget_valid = 10 if quick else 64
     n_mut_src = 2 if quick else 6
     per_class = {}
+    KEY_TABLES.clear()
+    for cdoc in doc['classes']:
+        for it in cdoc['rd']:
+            if it.get('by'):
+                KEY_TABLES.setdefault(cdoc['name'], []).append((it['by']['key_field'], {row[0][1] for row in it['by']['table']}))
     for cdoc in doc['classes']:
         cname = cdoc['name']
         if only and cname not in only:
             continue
+        if 'stub' in cdoc.get('flags', []):
+            continue            # a Struct subclass without read/write of its own: tied only as the last item of its parents
         cls = real_class(cdoc)
         tag = cdoc['default_tag']
         rng = ctx.subrng('struct/' + cname)
@@ -349,7 +392,11 @@ def struct_cases(ctx, doc, oracle, only=None):
                 valids.append(val)
                 obj, rest = impl_read(cls, bs, v)
                 rew = impl_write(obj, v) if obj is not None else None
-                cases.append(scase(v, tag, cname, bs, obj, rest, rew))
+                sc = scase(v, tag, cname, bs, obj, rest, rew)
+                if sc is None:
+                    ctx.count('struct.k-skipped.key-outside-table')
+                    sc = SKIP
+                cases.append(sc)
                 meta.append({'class': cname, 'v': v, 'kind': 'valid', 'value': sg.describe(val), 'hex': bs.hex(),
                              'impl': 'accept' if obj is not None else 'reject:' + rest})
                 stats['valid'] += 1
@@ -375,7 +422,11 @@ def struct_cases(ctx, doc, oracle, only=None):
                     seen.add(bs)
                     obj, rest = impl_read(cls, bs, v)
                     rew = impl_write(obj, v) if obj is not None else None
-                    cases.append(scase(v, tag, cname, bs, obj, rest, rew))
+                    sc = scase(v, tag, cname, bs, obj, rest, rew)
+                    if sc is None:
+                        ctx.count('struct.k-skipped.key-outside-table')
+                        sc = SKIP
+                    cases.append(sc)
                     meta.append({'class': cname, 'v': v, 'kind': 'mutated:' + label, 'value': sg.describe(val), 'hex': bs.hex(),
                                  'impl': 'accept' if obj is not None else 'reject:' + rest})
                     stats['mutated'] += 1
@@ -392,7 +443,11 @@ def struct_cases(ctx, doc, oracle, only=None):
                     bs = sg.encode(tag, val)
                     obj, rest = impl_read(cls, bs, v)
                     rew = impl_write(obj, v) if obj is not None else None
-                    cases.append(scase(v, tag, cname, bs, obj, rest, rew))
+                    sc = scase(v, tag, cname, bs, obj, rest, rew)
+                    if sc is None:
+                        ctx.count('struct.k-skipped.key-outside-table')
+                        sc = SKIP
+                    cases.append(sc)
                     meta.append({'class': cname, 'v': v, 'kind': 'cross-version:%d' % v2, 'value': sg.describe(val), 'hex': bs.hex(),
                                  'impl': 'accept' if obj is not None else 'reject:' + rest})
                     stats['mutated'] += 1
@@ -400,7 +455,8 @@ def struct_cases(ctx, doc, oracle, only=None):
                     ctx.count('struct.cross-version.%s' % ('accept' if obj is not None else 'reject'))
                     if obj is not None:
                         oracle.accepted(cname, cls, v, bs, obj, rest, False)
-    return cases, meta, per_class
+    keep = [k for k, c in enumerate(cases) if c is not SKIP]
+    return [cases[k] for k in keep], [meta[k] for k in keep], per_class
 
 
 def refusal_probe(ctx, cname, cls, tag, v):
